@@ -20,13 +20,13 @@ CHECKS = {
             'DESIGN.md 4/C01', 'Known finding: continue inside while bypasses the loop test (known_findings.json).'),
     'C03': ('symbolic evaluation of the operator dispatch ladder over 13x13 host type atoms per operator (table read-back); E6e: abstract interpretation of evaluate_expression over expression models with opaque host functions: lookup order, laziness of && || if(), argument order, every operand evaluated exactly once, operator coverage of the schema enum, relational operators as sign tests of value_compare; alias table',
             'Decides the operator/type action table ("unsupported operand types yield null", bool is not a number, string/datetime overloads), short circuit by value_boolean returning the operand, if() laziness, operands and arguments evaluated exactly once left to right (also when the left value already decides), every enum operator implemented, aliases resolve to the same library functions. Numerical results are the host\'s. The abstract interpreter (sa/absint.py) evaluates the AST of the repository functions itself over abstract inputs; nothing is imported or run under CPython.',
-            'DESIGN.md 12/C03 (as built) and 4/C03 (plan)', ''),
+            'DESIGN.md 13 + 12/C03 (as built) and 4/C03 (plan)', ''),
     'C04': ('E6s/E6e: abstract execution of the assignment statement (3 scope cases), of the function statement and of the value it binds applied to argument lists of every length (binding table, fresh frames, own statement list, caller options), abstract evaluation of variable / function lookup (151 scenarios); who-writes-globals enumeration, library-injection membership rule, callback call-site rules, shared C10.A (parameter split)',
             'Decides assignment scope, fresh locals per call, lookup order (keywords, locals by membership, globals, built-ins under the flag), non-overwriting library injection, unconditional function binding/redefinition, the parameter binding table incl. "..." / missing / surplus arguments and explicit lastArgArray False, callbacks keep options and get fresh argument lists. The abstract interpreter (sa/absint.py) evaluates the AST of the repository functions itself over abstract inputs; nothing is imported or run under CPython.',
-            'DESIGN.md 12/C04 (as built) and 4/C04 (plan)', ''),
+            'DESIGN.md 13 + 12/C04 (as built) and 4/C04 (plan)', ''),
     'C05': ('exception-escape (effect) analysis over the resolved call graph from execute_script/evaluate_expression with a frozen CPython raising-primitive table; E6e abstract evaluation of the function-call wrapper (host function returns / raises ValueArgsError, TypeError, BareScriptRuntimeError, BareScriptParserError x debug/logFn configurations); provenance-based classification of dynamic calls; string-key rule for library-made objects',
             'Decides "no path from a raising primitive to the API boundary without a handler" outside the library-call wrapper, and the wrapper\'s outcomes (failure value / null / propagate runtime error, logging exactly under debug+logFn). Causes of failures inside library functions are contained wholesale by the wrapper and not enumerated; values are assumed acyclic. The abstract interpreter (sa/absint.py) evaluates the AST of the repository functions itself over abstract inputs; nothing is imported or run under CPython.',
-            'DESIGN.md 12/C05 (as built) and 4/C05 (plan)', ''),
+            'DESIGN.md 13 + 12/C05 (as built) and 4/C05 (plan)', ''),
     'C07': ('E6 template extraction + schema-text validation (E5) of every emitted abstract model, per-scope label/jump multiset rules, monotone-counter rule, '
             'reader/writer key-path agreement',
             'Decides schema validity and label uniqueness/target/coverage of everything the parser emits for all shapes to the depth bound (and all programs via the '
@@ -34,16 +34,16 @@ CHECKS = {
             'DESIGN.md 4/C07', ''),
     'C08': ('E6s: abstract interpretation of _execute_script_helper over every statement list of length <= 4 (5 thorough) over {label A/B, jump A/B, jumpif, expr, assignment, return, return expr} in global and function scope with opaque expressions and 4 truth schedules, compared with the documented semantics (31028 runs quick); CFG path rule for the program counter, cache-origin rule, schema-vs-dispatch exhaustiveness, model immutability effect analysis, E6e argument-list scenarios; shared C09.D/W, C04.R/F',
             'Decides the statement-loop semantics on all small jump-level models (order, first label of that name in the current list incl. index 0 and backward, unknown label error, jump iff no expr or value_boolean, return, assignments, statement count), cache locality, model immutability in runtime.py/model.py and the argument-list protocol. Longer lists than the bound rely on the program-counter CFG rule. The abstract interpreter (sa/absint.py) evaluates the AST of the repository functions itself over abstract inputs; nothing is imported or run under CPython.',
-            'DESIGN.md 12/C08 (as built) and 4/C08 (plan)', ''),
+            'DESIGN.md 13 + 12/C08 (as built) and 4/C08 (plan)', ''),
     'C09': ('symbolic per-iteration evaluation of the loop prefix (counter = start + 1 from a read made in this iteration; cached counts reported), finite-abstraction evaluation of the (possibly nested) abort condition over 6 cases, package-wide who-writes/who-reads of the counter and limit keys, options-object identity flow with copy/write-back (finally) recognition incl. helper-returned copies, no-swallow rule over the call-graph closure of statement-executing callees',
             'Decides exactness (increment by 1 and test before every dispatch; abort iff limit>0 and count>limit), completeness (every statement-executing call shares the counter or writes it back in a finally; no handler absorbs the limit error) and monotonicity (nothing else reads the limit).',
-            'DESIGN.md 12/C09 (as built) and 4/C09 (plan)', ''),
+            'DESIGN.md 13 + 12/C09 (as built) and 4/C09 (plan)', ''),
     'C11': ('symbolic evaluation of value_type/value_compare ladders over 13 host type atoms (169 pairs), three-way form evaluation, container-branch recognisers; E6e relational scenarios (6 operators x 3 signs x 3 type pairs); E6l abstract execution of mathMax/mathMin (argument lists <= 3 over null < a < b < c) and of the dataSort comparator (512 cases) with host ordering/equality of opaque values reported; sort call-site rules',
             "Decides the type partition, null-first, antisymmetry-by-construction of every scalar branch, element-wise container comparison, sign tests of the six relational operators and that sort/indexOf/min/max/dataSort order and match by value_compare only. Transitivity inside one host type is the host's. The abstract interpreter (sa/absint.py) evaluates the AST of the repository functions itself over abstract inputs; nothing is imported or run under CPython.",
-            'DESIGN.md 12/C11 (as built) and 4/C11 (plan)', ''),
+            'DESIGN.md 13 + 12/C11 (as built) and 4/C11 (plan)', ''),
     'C02': ('constant-folded precedence table vs the ladder (196 entries), operator-set agreement (tokeniser regex language / table / schema / evaluator coverage), priority order of the operator alternation; E6x: abstract interpretation of parse_expression and its helpers over abstract token streams (regex matches are oracles decided from the pattern) compared with a precedence-climbing reference: all operator chains of length <= 4 (41370), operand forms in operator contexts, stacked prefix operators, 26 ill-formed sequences, error-text alignment',
             'Decides the tree the expression parser builds for every operator chain of up to 4 operators (5 one-per-rung in the thorough tier), every operand form in operator context, nested prefix operators, rejection of ill-formed token sequences with BareScriptParserError and the alignment of error texts/columns - independent of how the code is spelled. Lexical details inside a token (digits, escapes) are C13/C06. The abstract interpreter (sa/absint.py) evaluates the AST of the repository functions itself over abstract inputs; nothing is imported or run under CPython.',
-            'DESIGN.md 12/C02 (as built) and 4/C02 (plan)', ''),
+            'DESIGN.md 13 + 12/C02 (as built) and 4/C02 (plan)', ''),
     'C06': ('E6 scenario analysis of parse_script (failing sub-expression oracle, continuation lines, error shapes) with linear normal forms of the reported column validated '
             'against regex group positions; exception-escape sweep; automata inclusion of the number regex in float(); algebraic caret identity per elision branch',
             'Decides: every sub-expression syntax error is re-raised with full line, line number start+index and a column equal to group offset + inner column; errors of ill-formed shapes '
@@ -56,7 +56,7 @@ CHECKS = {
             'DESIGN.md 4/C10', ''),
     'C13': ('type-atom evaluation of value_string, shape rule + automata for the clean-up regex, automata inclusion printed-number language in literal regex, abstract execution of value_parse_number / value_parse_integer (float()/int() oracles: finite, NaN, infinity, ValueError), E6x conversion of every literal flavour',
             "Decides what the repository adds around CPython's repr/float round trip: dispatch order, the clean-up can only delete an all-zero fraction at the end, printed numbers are accepted literals converted by float(), parsers map non-finite / non-numeric text to null. Round-tripping over all doubles is the trusted base. The abstract interpreter (sa/absint.py) evaluates the AST of the repository functions itself over abstract inputs; nothing is imported or run under CPython.",
-            'DESIGN.md 12/C13 (as built) and 4/C13 (plan)', ''),
+            'DESIGN.md 13 + 12/C13 (as built) and 4/C13 (plan)', ''),
     'C14': ('encoder-configuration rules, automata equivalence of the string-token alternative with the JSON string-token language, follow-set rule for the number clean-up, '
             'key-serialisation sites',
             'Decides that post-processing of encoder output cannot alter string tokens and strips the fraction of integral numbers in every structural position, that every encoder '
@@ -64,7 +64,7 @@ CHECKS = {
             'DESIGN.md 4/C14', ''),
     'C15': ('E6l: abstract execution of the 10 index-taking array/string functions (through value_args_validate) on sequences of length 0-5 with indices -2..5 as int and float, non-integral, null, wrong-typed, boolean, missing, compared with the reference list/str model (2926 runs); per-function sibling rules over the registry: failure-value agreement, CFG validate-before-mutate, aliasing contract, type-atom evaluation of the argument type test, thin-wrapper table, default idiom; shared C11.U',
             'Decides results, failure values, effects and argument preservation of the index-taking functions on all small cases, and the per-function disciplines (documented failure values, validate before mutate, fresh vs same container, type strictness, host-operation wrappers). Reference-model equality over long call histories is not decided. The abstract interpreter (sa/absint.py) evaluates the AST of the repository functions itself over abstract inputs; nothing is imported or run under CPython.',
-            'DESIGN.md 12/C15 (as built) and 4/C15 (plan)', ''),
+            'DESIGN.md 13 + 12/C15 (as built) and 4/C15 (plan)', ''),
     'C16': ('shape recogniser for carry blocks bound to argument-model positions (unit table), day-loop step rules, getter sibling table, normalisation branches, formatter/parser facts with '
             'automata inclusion over all digits, effect analysis of the ISO parser',
             'Decides unit tables, carry order, month-length recomputation, getter/attribute agreement, formatter <-> parser symmetry (local zone, millisecond truncation, language inclusion) and '
@@ -72,19 +72,40 @@ CHECKS = {
             'DESIGN.md 4/C16', ''),
     'C17': ('E6s: abstract execution of the include statement with oracles for fetchFn / urlFn / logFn / parse_script / lint_script / url_file_relative over 20 scenarios (resolution table, nesting to 3 levels, fetch and syntax failures at depth, lint under debug, statement limit inside an include) + include inside a function; who-writes urlFn; E6 parser-side scenarios; three-valued case table of url_file_relative; CLI wiring',
             'Decides resolution against the including file at every level, isolation of the re-based urlFn, fetch/parse/lint/execute order once per include, global scope, statement accounting, failure reporting naming the failing file only, include merging/system flag in the parser, url_file_relative cases (recognised forms), CLI loader. The abstract interpreter (sa/absint.py) evaluates the AST of the repository functions itself over abstract inputs; nothing is imported or run under CPython.',
-            'DESIGN.md 12/C17 (as built) and 4/C17 (plan)', ''),
+            'DESIGN.md 13 + 12/C17 (as built) and 4/C17 (plan)', ''),
     'C18': ('effect analysis (model immutability), schema path typing with guard recognition for optional members + truthiness rule, abstract execution of the use collector / statement walker / pointless test over all expression models of depth <= 2, label-table scoping rules, warning-loop order rule; shared C08.E/L (what a jump does at run time)',
             'Decides purity, never-raises on schema-valid models (optional members guarded), exact use collection and pointless test, per-scope label tables matching the runtime search scope, deterministic warning order. Behaviour preservation of acting on a warning needs an execution oracle. The abstract interpreter (sa/absint.py) evaluates the AST of the repository functions itself over abstract inputs; nothing is imported or run under CPython.',
-            'DESIGN.md 12/C18 (as built) and 4/C18 (plan)', ''),
+            'DESIGN.md 13 + 12/C18 (as built) and 4/C18 (plan)', ''),
     'C19': ('E6l: abstract execution of top_data, aggregate_data and join_data over 5 tables each (duplicate / null / missing / mixed-type / look-alike keys; counts as int and float; six reducers; colliding field names a, a2, a3) compared with the relational meaning (334 runs); filter / calculated-field loops, sort site, CSV inference tests; shared C12/C16/C09 clauses',
             'Decides dataTop, dataAggregate and dataJoin on all small tables of the scenario set (partition by serialised key, first-appearance order, non-null reducers, collision renaming that never overwrites a left field), filter by value_boolean in order, calculated field on every row, CSV inference by is-None tests. CSV text round trip rests on the host csv module. The abstract interpreter (sa/absint.py) evaluates the AST of the repository functions itself over abstract inputs; nothing is imported or run under CPython.',
-            'DESIGN.md 12/C19 (as built) and 4/C19 (plan)', ''),
+            'DESIGN.md 13 + 12/C19 (as built) and 4/C19 (plan)', ''),
     'C20': ('independent BareScript front-end (E9) over the shipped .bare sources: well-formedness, lint-equivalent facts, call resolution / arity / definitely-null arguments against the library argument models, evidence-based side assignment (left / right / shared offsets) with access and block rules inside diffLines; shared C15.H/C11.F/C08.L/C08.E clauses',
             "Decides that every shipped script parses and is lint-clean (re-derived), and for diffLines: every block is pushed onto the returned array, element accesses of one side use only that side's cursors (or shared offsets), Remove/Add blocks come from the right side, pushes are guarded against empty ranges (three-valued). Reconstruction for all input pairs needs execution and is not decided.",
-            'DESIGN.md 12/C20 (as built) and 4/C20 (plan)', ''),
+            'DESIGN.md 13 + 12/C20 (as built) and 4/C20 (plan)', ''),
     'C12': ('forward may-taint dataflow (per-function CFG with None-refinement, inter-procedural by parameter binding) from maybe-float numbers to integer-only operand positions; type-test lint; E6l abstract execution of the 10 index-taking array/string functions with every number spelled as int and as float (2926 runs); E6x number-literal conversion',
             'Decides that every index/count/size/radix/digit-count position a float-spelled integral number can reach is coerced, that the index-taking functions give identical results for both spellings on all small cases, that integrality is tested by value and literals are always floats. Equality of results for all inputs of all functions is value-dependent and not decided. The abstract interpreter (sa/absint.py) evaluates the AST of the repository functions itself over abstract inputs; nothing is imported or run under CPython.',
-            'DESIGN.md 12/C12 (as built) and 4/C12 (plan)', ''),
+            'DESIGN.md 13 + 12/C12 (as built) and 4/C12 (plan)', ''),
+}
+
+# session 2: deciding evaluations added in front of the techniques above (DESIGN.md section 13); the older shape rules are advisory read-backs once these decide
+SESSION2 = {
+    'C03': 'E6e evaluation of evaluate_expression on every ordered pair of 14 sample operands of every value type x 6 arithmetic operators and unary - / ! against the language definition (C03.T), undefined callee with effectful arguments; shared evaluations: value_string on numbers (C13), datetime arithmetic / ISO text under fixed-offset zones (C16, E6d), relational operators on 32x32 concrete values (C11.S)',
+    'C04': 'execute_script evaluated on an empty script with caller globals binding a library name to a host function / to null (C04.I); parse_script evaluated on layout variants of function headers (C10.L, E6p)',
+    'C05': 'escape analysis extended by implicit __str__/__repr__ calls when a caught exception is formatted and by with-statements (contextlib.suppress decided, swallowing context managers undecided); dataParseCSV evaluated on ragged texts with csv.reader / DictReader as exact host models (C05.K)',
+    'C06': 'BareScriptParserError.__init__ evaluated on lines of 0..400 characters (incl. blanks at the ends) with the fault at every column: stored attributes and caret position in the formatted message (C06.A); blank continuation parts join to concrete text (lone backslash at end of input)',
+    'C07': 'shared evaluations: parse_script on layout variants (C10.L, E6p) and lint_script on lowered structured code and on the shipped includes (C18.R, E6n): no label warning',
+    'C09': 'E6s evaluation of the statement loop on 31028 small models under a limit (counts compared; shared C08.E) and of 21 include scenarios incl. the limit hit inside an included script; filter_data / add_calculated_field / join_data evaluated with a counting expression oracle, completing and aborted by the limit (run\'s options carry start + evaluations); handler fate analysis (conditional re-raise); the D / W / R read-backs are advisory for loop helpers once the evaluation decides',
+    'C10': 'E6p (sa/parsesim.py): parse_script evaluated on concrete text - 686 (quick) layout variants of two programs covering every statement form, generated from the language definition (sa/barefront.py): blanks added / removed wherever allowed, tabs, CRLF, chunkings, blank / comment lines at every position, continuation at every blank incl. across chunks - each must give the model of the canonical layout (C10.L)',
+    'C11': 'E6e: the six relational operators evaluated on every ordered pair of 32 concrete values (nested arrays / objects, [1] vs [true]) against the sign of the reference order; arraySort with a comparison function returning fractions',
+    'C12': 'value_args_validate evaluated on an integer parameter with numbers spelled both ways; bit operators as integer-only sinks; shared evaluations that run every number as host int and as float: C15.R (E6c library reference models), C16.M (datetimeNew), C14.R (jsonStringify indent), C13.D (value_string on 5 and 5.0 ...)',
+    'C13': 'value_string evaluated on 44 sample numbers (ints, integral / fractional floats, exponent forms, booleans, non-finite) - text converts back to the number, integral numbers print as integer digits, never raises - and value_parse_number on 23 concrete texts (printed forms, NaN / infinity spellings, overflowing digit strings, malformed text); host str()/float()/regex semantics on concrete values',
+    'C14': 'E6l: jsonStringify (no indent, indent 2, indent 3.0) and jsonParse evaluated on 190 JSON values whose strings / keys contain . 0 , ] } " \\ / newline, control and non-BMP characters, trailing backslashes and newlines - valid JSON denoting the value, sorted keys, no fraction on integral numbers, no collisions, parse inverts (C14.R); json encoder / json.loads as exact host models on concrete values',
+    'C15': 'E6c (sa/libref.py): 42 array / object / string / regexEscape / urlEncode functions evaluated through the repository\'s own value_args_validate on ~5500 argument lists (every container / string template x indices -2..len+2 as float and as host int; wrong type in each position, missing, surplus) against reference list / dict / str models written from the $doc lines: result, identity vs freshness (shallow), post-call state of every argument, documented failure value (C15.R)',
+    'C16': 'E6d (sa/hostdt.py, sa/dtsim.py): value_normalize_datetime, value_string, value_parse_datetime, the getters and datetime + / - evaluated on naive / aware / date values with sub-millisecond parts under four (six thorough) fixed-offset local zones, the datetime module as an exact host model (C16.N/I/G/E); datetimeNew evaluated on 1704 (8456 thorough) component lists, int and float spellings, against proleptic-Gregorian ordinal arithmetic (C16.M). DST transitions are not modelled',
+    'C17': 'url_file_relative evaluated on 70 (including file, reference) pairs (posixpath / PurePosixPath / urljoin as exact host models), parse_script evaluated on quoted / system include lines (E6p), _fetch_include evaluated on 7 requests with importlib.resources as an opaque host object',
+    'C18': 'E6n (sa/lintsim.py): lint_script evaluated on 10 jump-level models (user / duplicate / dangling labels, duplicate functions / arguments, names equal to schema member names, empty names, calls at every expression position), a structured program lowered by the evaluated parse_script and the shipped includes, three times each (again; other iteration order of unordered collections): never raises, model unchanged, deterministic, label / function / argument / unused / pointless warnings = facts of the model (C18.R)',
+    'C19': 'shared evaluations: dataParseCSV on ragged texts (C05.K), data expression helpers with a counting oracle (C09.I); aggregate measures with float samples (equal non-dyadic values, large mean with small spread)',
+    'C20': 'E9x (sa/baresim.py): the shipped diffLines (text of include/diff.bare, parsed by sa/barefront.py) evaluated by a reference evaluator of the structured language with the library reference models of E6c as builtins on all pairs of line lists up to length 4 over {a, b} (quick; length 5 over three letters thorough), LF / CRLF texts: blocks reconstruct both inputs (C20.B); lint_script evaluated on the parsed includes: lint-clean (C18.R)',
 }
 
 NOT_YET = {}
@@ -107,7 +128,7 @@ def main():
                 'engine': 'sa',
                 'level_claimed': {'category': 'other', 'text': text, 'design_ref': ref},
                 'level_note': (note + ' ' if note else '') + TRUST,
-                'technique': 'static analysis: ' + tech,
+                'technique': 'static analysis: ' + ((SESSION2[pid] + '; ') if pid in SESSION2 else '') + tech,
             })
         else:
             not_applicable.append({'property_id': pid, 'reason': NOT_YET.get(pid, 'static check for this property is not built yet (work in progress); nothing is claimed')})
@@ -128,8 +149,10 @@ def main():
             'kind_free_text': 'repository-specific static analysers over Python ast (loader with literal tables, statement CFG, '
                               'dataflow, call-graph binding, regex-AST and schema-text readers, an abstract interpreter for the Python subset the '
                               'repository uses - applied to the parser, the expression parser, the statement loop, the evaluator and selected library / data '
-                              'functions over abstract inputs with oracles for regex matches, host callbacks and opaque values - and an independent '
-                              'BareScript front-end); stdlib only',
+                              'functions over abstract inputs with oracles for regex matches, host callbacks and opaque values, and (session 2) on '
+                              'enumerated concrete inputs with the standard library as exact host model: layout variants, lint models, library '
+                              'reference models, datetimes under fixed zones, JSON values - and an independent BareScript front-end with a reference '
+                              'evaluator for the shipped diff.bare); stdlib only',
         }],
         'checks': checks,
         'not_applicable': not_applicable,
